@@ -1,6 +1,6 @@
 SPECIFICATION Spec
 CONSTANTS MaxPages = 4
- EndAt = "data"
+ EndAt = "lastpage"
  Lens = {1,2,4}
  Chunk = 4
  Read = 2
